@@ -920,6 +920,7 @@ func c04(p *core.Program, r *core.Report) {
 	// ---- rule 4: reads only through io.ReadFull
 	readerDiscipline(p, r, "reader-discipline")
 	outputIndexCoversLoopsRule(p, r, "output-index-covers-loops")
+	sizeArithmeticFitsRule(p, r, "size-arithmetic-fits-int")
 	membersThroughPush(p, r, "members-through-push")
 
 	r.Assume("VTA call graph is sound for non-reflective calls; encoding/json reflection edges to (Un)MarshalJSON are added by hand")
@@ -1406,4 +1407,180 @@ func predicateTrueCmps(cond ssa.Value) []eng.Cmp {
 		}
 	}
 	return out
+}
+
+// sizeArithmeticFitsRule (C04): a product formed from a decoded count in a platform-sized integer is formed only
+// after the count was compared, in 64 bits, with a bound derived from a constant.
+func sizeArithmeticFitsRule(p *core.Program, r *core.Report, rule string) {
+	r.Rule(rule, "in the binary decoders every multiplication (or left shift) of a value derived from a decoded count (wkbcommon.ReadUInt32) that is carried out in a platform-sized or 32-bit integer type (int, uint, int32, uint32) is unreachable from the function entry once the pass edge of a range test on that count is deleted - a comparison made in a 64-bit type of the (converted) count with a constant, or with a constant divided by the other factor(s) (math.MaxInt/8/stride): with a 32-bit int, int(n)*stride wraps for counts that a large configured limit lets through, and make panics (or the product wraps to 0 and a forged count decodes to an empty geometry)", 1)
+	n := 0
+	paramSinks := eng.ParamSizeSinks(pkgFuncs(p, append([]string{""}, decoderPkgs...)...))
+	for _, fn := range pkgFuncs(p, decoderPkgs...) {
+		for _, c := range eng.Calls(fn) {
+			call, ok := c.(*ssa.Call)
+			if !ok {
+				continue
+			}
+			// a count: the result of ReadUInt32, or of a function of the decoder packages that hands a uint32 and an
+			// error back (a helper that reads and checks the count)
+			isSrc := eng.IsCallTo(c, mod+"/encoding/wkbcommon", "ReadUInt32")
+			if g := call.Call.StaticCallee(); g != nil && !isSrc && core.InModule(g) && len(g.Blocks) > 0 {
+				res := g.Signature.Results()
+				if res.Len() == 2 && eng.IsErrorType(res.At(1).Type()) {
+					if bt, isB := res.At(0).Type().Underlying().(*types.Basic); isB && bt.Kind() == types.Uint32 {
+						for _, dp := range decoderPkgs {
+							if core.FnPkgPath(g) == mod+"/"+dp {
+								isSrc = true
+							}
+						}
+					}
+				}
+			}
+			if !isSrc {
+				continue
+			}
+			var cnt ssa.Value
+			for _, rf := range eng.Referrers(call) {
+				if ex, isEx := rf.(*ssa.Extract); isEx && ex.Index == 0 {
+					cnt = ex
+				}
+			}
+			if cnt == nil {
+				continue
+			}
+			taint := eng.IntFlow(cnt)
+			isCount := func(v ssa.Value) bool { return taint[v] && eng.StripConv(v) == cnt || v == cnt }
+			// range tests: in a 64-bit type, count > bound with bound rooted at a constant
+			rootedAtConst := func(v ssa.Value) bool {
+				for d := 0; d < 6; d++ {
+					switch x := v.(type) {
+					case *ssa.Const:
+						return x.Value != nil
+					case *ssa.Convert:
+						v = x.X
+					case *ssa.ChangeType:
+						v = x.X
+					case *ssa.BinOp:
+						if x.Op != token.QUO && x.Op != token.SHR {
+							return false
+						}
+						v = x.X
+					default:
+						return false
+					}
+				}
+				return false
+			}
+			is64 := func(t types.Type) bool {
+				b, isB := t.Underlying().(*types.Basic)
+				return isB && (b.Kind() == types.Uint64 || b.Kind() == types.Int64)
+			}
+			pass := eng.EdgeSet{}
+			for _, b := range fn.Blocks {
+				for e := 0; e < 2; e++ {
+					cm, okc := eng.EdgeCmp(b, e)
+					if !okc {
+						continue
+					}
+					x, y, op := cm.X, cm.Y, cm.Op
+					if op == token.GEQ || op == token.GTR {
+						// bound >= count: mirror
+						if isCount(y) {
+							x, y, op = y, x, eng.SwapOp(op)
+						}
+					}
+					if (op == token.LEQ || op == token.LSS) && isCount(x) && is64(x.Type()) && rootedAtConst(y) {
+						pass[[2]int{b.Index, e}] = true
+					}
+				}
+			}
+			reach := eng.Reachable(fn.Blocks[0], pass)
+			var vs []ssa.Value
+			for v := range taint {
+				vs = append(vs, v)
+			}
+			sort.Slice(vs, func(i, j int) bool { return vs[i].Pos() < vs[j].Pos() })
+			k := 0
+			for _, v := range vs {
+				bo, isBo := v.(*ssa.BinOp)
+				if !isBo || (bo.Op != token.MUL && bo.Op != token.SHL) {
+					continue
+				}
+				bt, isB := bo.Type().Underlying().(*types.Basic)
+				if !isB {
+					continue
+				}
+				switch bt.Kind() {
+				case types.Int, types.Uint, types.Uintptr, types.Int32, types.Uint32:
+				default:
+					continue
+				}
+				// only products that size something (an allocation, a slice bound, a loop): the type word's
+				// arithmetic is not a size
+				if len(eng.SizeSinks(eng.IntFlow(bo), paramSinks)) == 0 {
+					continue
+				}
+				n++
+				k++
+				key := fmt.Sprintf("%s/product#%d", short(fn), k)
+				bad := ""
+				if len(pass) == 0 {
+					bad = fmt.Sprintf("%s is computed in %s from the decoded count with no 64-bit range test of the count before it", bo.String(), bt.Name())
+				} else if reach[bo.Block()] {
+					bad = fmt.Sprintf("%s is computed in %s on a path that does not pass the 64-bit range test of the count", bo.String(), bt.Name())
+				}
+				if bad != "" {
+					bad += ": where int has 32 bits the product wraps for counts a large element limit admits, and make panics or allocates nothing"
+				}
+				r.Check(bad == "", rule, key, p.Pos(bo.Pos()), true, "behind a 64-bit range test of the count against a constant-derived bound", bad)
+			}
+		}
+	}
+	r.Count("count_products_in_platform_ints", n)
+}
+
+// encoderRecursionRule (C03/C05): an encoder that calls itself for the members of a collection carries a depth.
+// targets: (package, function) of the recursive encoders.
+func encoderRecursionRule(p *core.Program, r *core.Report, rule string, targets [][3]string, what string) {
+	r.Rule(rule, "an encoder that calls itself for the members of a collection carries a depth - an integer parameter handed on changed and compared with a bound - or does not recurse: "+what+" recurse once per nesting level with no bound, and Go's stack limit (1 GB) ends a collection nested about three million deep in `fatal error: stack overflow`, which no caller can recover from. The statement quantifies over collections nested to any depth", len(targets))
+	for _, t := range targets {
+		fn := mustFn(p, r, rule, t[0], t[1])
+		if fn == nil {
+			continue
+		}
+		var rec []ssa.CallInstruction
+		for _, c := range eng.Calls(fn) {
+			if eng.StaticCallee(c) == fn {
+				rec = append(rec, c)
+			}
+		}
+		key := t[2] + "/self-calls" // by role: the function may be renamed or moved onto another receiver
+		if len(rec) == 0 {
+			r.OK(rule, key, p.Pos(fn.Pos()), true, "does not call itself")
+			continue
+		}
+		bounded := false
+		for pi, prm := range fn.Params {
+			tb, isB := prm.Type().Underlying().(*types.Basic)
+			if !isB || tb.Info()&types.IsInteger == 0 {
+				continue
+			}
+			changed := true
+			for _, c := range rec {
+				if pi >= len(c.Common().Args) || c.Common().Args[pi] == ssa.Value(prm) {
+					changed = false
+				}
+			}
+			tested := false
+			for _, b := range fn.Blocks {
+				if c, ok := eng.EdgeCmp(b, 0); ok && eng.IsOrderedCmp(c.Op) && (eng.StripConv(c.X) == ssa.Value(prm) || eng.StripConv(c.Y) == ssa.Value(prm)) {
+					tested = true
+				}
+			}
+			if changed && tested {
+				bounded = true
+			}
+		}
+		r.Check(bounded, rule, key, p.Pos(rec[0].Pos()), true, "the recursion carries a tested depth", fmt.Sprintf("%s calls itself at %d sites (first: %s) for the members of a collection and carries no depth: the nesting of the geometry alone decides how deep the stack grows", short(fn), len(rec), p.Pos(rec[0].Pos())))
+	}
 }
